@@ -73,6 +73,12 @@ var queries = []string{
 	`{ nope }`,
 	`{ hello `,
 	`{ __schema { queryType { name } } }`,
+	// two texts that differ only in white space INSIDE a string literal, and two that differ only
+	// in a line break that ends a comment
+	`{ echo(b: "a b") }`,
+	`{ echo(b: "a  b") }`,
+	"{ hello # maybe\n}",
+	"{ hello #\nmaybe }",
 	`query R($x: Boolean!, $y: Boolean!) { me { owner { id name nick } owner @include(if: $x) { plain } owner @include(if: $y) { plainReq } } }`,
 	`query R2($x: Boolean!, $y: Boolean!) { users { best { id name nick } best @include(if: $x) { plain } best @skip(if: $x) { plainReq } best @include(if: $y) { rank } } }`,
 }
